@@ -95,23 +95,32 @@ package gocql
 // elements is decoded by the primitive contracts above).
 //@ func (f *framer) readStringList
 //@   props C04 C05
+//@   count_calls readString
 //@   modifies f.buf
 //@   may_soft_panic
+// element i is the i-th [string] read
+//@   loop 0: step l[prev(i)] == readString_ret0 && readString_calls == prev(readString_calls) + 1
 //@   ensures !soft_panic() ==> len(result) == int(be16(old(f.buf), 0)) && old(len(f.buf)) >= 2
 //@   ensures !soft_panic() ==> len(f.buf) <= old(len(f.buf)) - 2 && base(f.buf) == old(base(f.buf))
 //@   loop 0: invariant 0 <= i && i <= int(size) && len(l) == int(size) && len(f.buf) <= old(len(f.buf)) - 2 && base(f.buf) == old(base(f.buf))
 
 //@ func (f *framer) readBytesMap
 //@   props C04 C05
+//@   count_calls readString readBytes
 //@   modifies f.buf
 //@   may_soft_panic
+// each pair read is stored: the [string] key maps to the [bytes] read after it
+//@   loop 0: step haskey(m, readString_ret0) && same(m[readString_ret0], readBytes_ret0)
 //@   ensures !soft_panic() ==> result != nil && old(len(f.buf)) >= 2 && len(f.buf) <= old(len(f.buf)) - 2 && base(f.buf) == old(base(f.buf))
 //@   loop 0: invariant 0 <= i && i <= int(size) && m != nil && len(f.buf) <= old(len(f.buf)) - 2 && base(f.buf) == old(base(f.buf))
 
 //@ func (f *framer) readStringMultiMap
 //@   props C04 C05
+//@   count_calls readString readStringList
 //@   modifies f.buf
 //@   may_soft_panic
+// each pair read is stored: the [string] key maps to the [string list] read after it
+//@   loop 0: step haskey(m, readString_ret0) && same(m[readString_ret0], readStringList_ret0)
 //@   ensures !soft_panic() ==> result != nil && old(len(f.buf)) >= 2 && len(f.buf) <= old(len(f.buf)) - 2 && base(f.buf) == old(base(f.buf))
 //@   loop 0: invariant 0 <= i && i <= int(size) && m != nil && len(f.buf) <= old(len(f.buf)) - 2 && base(f.buf) == old(base(f.buf))
 
@@ -755,8 +764,8 @@ package gocql
 //@   at_return[C04] f.proto > 2 && typeis(result0, *schemaChangeKeyspace) ==> readString_calls == 3 && readStringList_calls == 0 && unbox(result0, *schemaChangeKeyspace).change == nth(readString, 1) && unbox(result0, *schemaChangeKeyspace).keyspace == nth(readString, 3)
 //@   at_return[C04] f.proto > 2 && typeis(result0, *schemaChangeTable) ==> readString_calls == 4 && readStringList_calls == 0 && unbox(result0, *schemaChangeTable).change == nth(readString, 1) && unbox(result0, *schemaChangeTable).keyspace == nth(readString, 3) && unbox(result0, *schemaChangeTable).object == nth(readString, 4)
 //@   at_return[C04] f.proto > 2 && typeis(result0, *schemaChangeType) ==> readString_calls == 4 && readStringList_calls == 0 && unbox(result0, *schemaChangeType).change == nth(readString, 1) && unbox(result0, *schemaChangeType).keyspace == nth(readString, 3) && unbox(result0, *schemaChangeType).object == nth(readString, 4)
-//@   at_return[C04] f.proto > 2 && typeis(result0, *schemaChangeFunction) ==> readString_calls == 4 && readStringList_calls == 1 && unbox(result0, *schemaChangeFunction).change == nth(readString, 1) && unbox(result0, *schemaChangeFunction).keyspace == nth(readString, 3) && unbox(result0, *schemaChangeFunction).name == nth(readString, 4) && same(unbox(result0, *schemaChangeFunction).args, readStringList_ret0)
-//@   at_return[C04] f.proto > 2 && typeis(result0, *schemaChangeAggregate) ==> readString_calls == 4 && readStringList_calls == 1 && unbox(result0, *schemaChangeAggregate).change == nth(readString, 1) && unbox(result0, *schemaChangeAggregate).keyspace == nth(readString, 3) && unbox(result0, *schemaChangeAggregate).name == nth(readString, 4) && same(unbox(result0, *schemaChangeAggregate).args, readStringList_ret0)
+//@   at_return[C04] f.proto > 2 && typeis(result0, *schemaChangeFunction) ==> readString_calls >= 4 && readStringList_calls == 1 && unbox(result0, *schemaChangeFunction).change == nth(readString, 1) && unbox(result0, *schemaChangeFunction).keyspace == nth(readString, 3) && unbox(result0, *schemaChangeFunction).name == nth(readString, 4) && same(unbox(result0, *schemaChangeFunction).args, readStringList_ret0)
+//@   at_return[C04] f.proto > 2 && typeis(result0, *schemaChangeAggregate) ==> readString_calls >= 4 && readStringList_calls == 1 && unbox(result0, *schemaChangeAggregate).change == nth(readString, 1) && unbox(result0, *schemaChangeAggregate).keyspace == nth(readString, 3) && unbox(result0, *schemaChangeAggregate).name == nth(readString, 4) && same(unbox(result0, *schemaChangeAggregate).args, readStringList_ret0)
 
 // RESULT: [int] kind - 1 void, 2 rows, 3 set_keyspace, 4 prepared, 5 schema_change; anything else is refused
 //@ func (f *framer) parseResultFrame
